@@ -480,4 +480,61 @@ def clientPrefix : Path → Text
 def clientErrorText (p : Path) (msg : Text) : Text :=
   clientPrefix p ++ serverErrorMessage p msg ++ t!" (code: " ++ intText (-32603) ++ t!")"
 
+/-! ## routing a received message: the response envelope
+
+A handler may return any JSON (structured content, `_meta`) and any text - also JSON-RPC's own vocabulary (`"method"`,
+`"id"`, `"result"`, `"error"`, ...). What the client does with a received message must depend on the *envelope* (the
+top-level members) only. The two classifiers of the library, as they are written: -/
+
+inductive MsgKind where
+  | request | response | error | notification | invalid
+  deriving DecidableEq, Repr
+
+/-- sse_client.go `handleMessageEvent` (legacy SSE client): `json.Unmarshal` into a map, then `_, ok := message["id"]` /
+    `message["method"]` - id and method: a server request, id only: a response (result or error), method only: a notification -/
+def classifyLegacySSE : Json → MsgKind
+  | .obj m =>
+    match hasKey m t!"id", hasKey m t!"method" with
+    | true, true => .request
+    | true, false => .response
+    | false, true => .notification
+    | false, false => .invalid
+  | _ => .invalid
+
+/-- jsonrpc.go `parseJSONRPCMessageType` (Streamable client, stdio transports) -/
+def classifyMessageType : Json → MsgKind
+  | .obj m =>
+    if lookupStr? m t!"jsonrpc" ≠ some t!"2.0" then .invalid
+    else if hasKey m t!"id" then
+      (if hasKey m t!"error" then .error else if hasKey m t!"result" then .response else .request)
+    else if hasKey m t!"method" then .notification
+    else .invalid
+  | _ => .invalid
+
+/-- jsonrpc.go `JSONRPCResponse` under `json.Marshal`: `{"jsonrpc":"2.0","id":…,"result":…}` -/
+def responseEnvelope (id result : Json) : Json :=
+  .obj [(t!"jsonrpc", .str t!"2.0"), (t!"id", id), (t!"result", result)]
+
+/-! A classifier that looks for member names *anywhere* in the message (what probing the raw text for `"id":` and
+`"method":` amounts to on compact JSON) - not the library's code, the foil the theorems are stated against. -/
+mutual
+def mentionsKey (key : Text) : Json → Bool
+  | .obj kvs => mentionsKeyFields key kvs
+  | .arr xs => mentionsKeyList key xs
+  | _ => false
+def mentionsKeyList (key : Text) : List Json → Bool
+  | [] => false
+  | x :: rest => mentionsKey key x || mentionsKeyList key rest
+def mentionsKeyFields (key : Text) : List (Text × Json) → Bool
+  | [] => false
+  | (k, v) :: rest => k == key || mentionsKey key v || mentionsKeyFields key rest
+end
+
+def classifyAnyDepth (j : Json) : MsgKind :=
+  match mentionsKey t!"id" j, mentionsKey t!"method" j with
+  | true, true => .request
+  | true, false => .response
+  | false, true => .notification
+  | false, false => .invalid
+
 end Mcp.Content
